@@ -985,7 +985,8 @@ def verify(prop, modnames, tier, seed, only=None):
                     # a frame obligation only exists once the code writes a field
                     # the contract declares and does not allow: it is implicitly
                     # required when the function is otherwise under a discharged contract
-                    implicit = (cl['kind'] == 'frame' and any(
+                    # (likewise "loop not left early": it only exists once the body can break/return)
+                    implicit = (cl['kind'] in ('frame', 'not-left-early') and any(
                         n_.startswith('%s[%s]::' % (r['key'], r['case'])) for n_ in required))
                     if name in required or implicit:
                         out['violations'].append({
